@@ -163,6 +163,10 @@ func TestVerifC07(t *testing.T) {
 				// alone == suffix-only (checked above), and every match present in only
 				// one of the two results has Confidence < 1 (a noisy match): the
 				// negative-offset clamp onto token 0 only exists when X starts the input.
+				// (tightened after a seeded change hid behind the looser version: the clamp
+				// can only ADD claimed tokens to X-at-token-0, so the embedded result must be
+				// a subset of the alone result; a match that exists only behind a prefix, or
+				// a different span/confidence for the same document, is not this finding)
 				noisyOnly := true
 				inA := map[string]bool{}
 				for _, m := range norm[0] {
@@ -178,8 +182,8 @@ func TestVerifC07(t *testing.T) {
 					}
 				}
 				for _, m := range norm[3] {
-					if !inA[m.String()] && m.Conf == 1.0 {
-						noisyOnly = false
+					if !inA[m.String()] {
+						noisyOnly = false // embedded has something alone lacks
 					}
 				}
 				if noisyOnly && cd.kind != "exact" {
